@@ -12,6 +12,7 @@ package main
 import (
 	"bytes"
 	"context"
+	"encoding/csv"
 	"encoding/json"
 	"errors"
 	"fmt"
@@ -28,6 +29,7 @@ import (
 
 	"github.com/getkin/kin-openapi/openapi3"
 	"github.com/getkin/kin-openapi/openapi3filter"
+	yaml3 "github.com/oasdiff/yaml3"
 
 	"kinverif/internal/hx"
 )
@@ -296,11 +298,68 @@ func c06Base(ct string) string {
 	return ct
 }
 
+// yamlView: what yaml3 makes of the text (first document), in case notation; nil = error.
+func yamlView(text string) any {
+	var v any
+	if err := yaml3.NewDecoder(strings.NewReader(text)).Decode(&v); err != nil {
+		return nil
+	}
+	return map[string]any{"v": goToJ(v)}
+}
+
+// csvView: the records encoding/csv reads from the text; nil = error.
+func csvView(text string) any {
+	r := csv.NewReader(strings.NewReader(text))
+	out := []any{}
+	for {
+		rec, err := r.Read()
+		if err == io.EOF {
+			break
+		}
+		if err != nil {
+			return nil
+		}
+		fs := []any{}
+		for _, f := range rec {
+			fs = append(fs, f)
+		}
+		out = append(out, fs)
+	}
+	return out
+}
+
+// c06HasX: the value contains something outside the case notation (a YAML timestamp, a non-string key …).
+func c06HasX(v any) bool {
+	switch x := v.(type) {
+	case map[string]any:
+		if _, ok := x["x"]; ok {
+			return true
+		}
+		for _, e := range x {
+			if c06HasX(e) {
+				return true
+			}
+		}
+	case []any:
+		for _, e := range x {
+			if c06HasX(e) {
+				return true
+			}
+		}
+	}
+	return false
+}
+
 // c06Body computes the views of a body text under a Content-Type header.
 func c06Body(text, ct string) map[string]any {
 	b := map[string]any{"text": text, "json": jsonView(text), "form": formView(text), "parts": nil}
-	if c06Base(ct) == "multipart/form-data" {
+	switch c06Base(ct) {
+	case "multipart/form-data":
 		b["parts"] = partsView(text, ct)
+	case "application/yaml", "application/x-yaml":
+		b["yaml"] = yamlView(text)
+	case "text/csv":
+		b["csv"] = csvView(text)
 	}
 	return b
 }
@@ -1022,6 +1081,8 @@ func genC06(ctx *hx.Ctx, emit func(hx.Case)) {
 			emit(mkCase(true, []any{mtEntry("application/json", js), mtEntry("application/*", js)}, ct, text, false))
 		}
 	}
+	// (F) the YAML and CSV decoders of the registry
+	genYamlCsv(ctx, emit)
 	// (E) default injection (DefaultsSet is installed unless Options.SkipSettingDefaults)
 	genDefaults(ctx, emit)
 	// random stream
@@ -1124,6 +1185,45 @@ func genMultipart(ctx *hx.Ctx, emit func(hx.Case)) {
 					}
 					text := renderMultipart(bd, []c06Part{pool[i], pool[j]}, false)
 					emit(mkCase(true, []any{mtEntry("multipart/form-data", s)}, mct, text, cnt%3 == 0))
+				}
+			}
+		}
+	}
+}
+
+// genYamlCsv: application/yaml, application/x-yaml (first document of the text, numbers as int / float64) and
+// text/csv (the records, normalised, as one string).
+func genYamlCsv(ctx *hx.Ctx, emit func(hx.Case)) {
+	objS := sch("ty", "object", "props", []any{[]any{"a", sch("ty", "integer", "max", 5)}, []any{"b", sch("ty", "string", "ro", true)},
+		[]any{"c", sch("ty", "array", "items", sch("ty", "number"))}, []any{"d", sch("ty", "integer", "dflt", jI(1))}}, "required", []any{"a"})
+	schemas := []any{objS, sch("ty", "string", "minLen", 2), sch("ty", "integer"), sch("ty", "array", "items", sch("ty", "integer")), sch("nullable", true), nil}
+	yamls := []string{"a: 1\n", "a: 1\nb: x\n", "a: 7\n", "a: 1\nc: [1, 2.5]\n", "a: 1\nc:\n  - 1\n  - x\n", `{"a": 1}`, `{"a":1,"zz":{"k":[true,null]}}`,
+		"a: 1\n---\na: x\n", "a: [1", "\tbad", "a: 1\na: 2\n", "hello", "12", "- 1\n- 2\n", "~", "a: null\n", "a: 1.0\n", "a: '1'\n", "a: -3\nd: 4\n", "# only a comment\n", " "}
+	for _, ct := range []string{"application/yaml", "application/x-yaml", "application/yaml; charset=utf-8"} {
+		for _, key := range []string{"application/yaml", "application/x-yaml", "*/*"} {
+			for _, s := range schemas {
+				for _, y := range yamls {
+					for _, opt := range []int{0, 1, 2} { // plain, ExcludeReadOnlyValidations, SkipSettingDefaults
+						b := c06Body(y, ct)
+						if c06HasX(b["yaml"]) {
+							continue
+						}
+						c := hx.Case{"required": true, "content": []any{mtEntry(key, s)}, "ct": ct, "exro": opt == 1, "body": b}
+						if opt == 2 {
+							c["skipDefaults"] = true
+						}
+						emit(c)
+					}
+				}
+			}
+		}
+	}
+	csvs := []string{"a,b\n1,2\n", "a,b\n1\n", "x", "\"q\"\"x\",2\n", "a,\"b\nc\"\n", "a,b", "\"unterminated\n", "\n\n", "1\n2\n3\n", "é,ü\r\n1,2\r\n"}
+	for _, ct := range []string{"text/csv", "text/csv; header=present", "text/csv; charset=utf-8; header=absent"} {
+		for _, key := range []string{"text/csv", "text/*", "*/*"} {
+			for _, s := range []any{sch("ty", "string"), sch("ty", "string", "minLen", 5), sch("ty", "integer"), sch("ty", "object"), nil} {
+				for _, t := range csvs {
+					emit(hx.Case{"required": true, "content": []any{mtEntry(key, s)}, "ct": ct, "exro": false, "body": c06Body(t, ct)})
 				}
 			}
 		}
